@@ -6,6 +6,8 @@
 (* runs of the real solver and the relation the specification requires:    *)
 (*   mode "prefix"  one is a prefix of the other (AGPPair.SameSequence)    *)
 (*   mode "equal"   identical, element by element, bit for bit             *)
+(*   mode "distinct" the elements of a (object identities) are pairwise    *)
+(*                  different (AGPMulti.DistinctObjects)                   *)
 (* The first differing index is reported.                                  *)
 (***************************************************************************)
 EXTENDS Sequences, Integers, Json, IOUtils, TLC
@@ -18,7 +20,12 @@ FirstDiff(p, q) ==
       D == {i \in 1..n : p[i] # q[i]}
   IN IF D = {} THEN 0 ELSE CHOOSE i \in D : \A j \in D : i <= j
 
+FirstDup(p) ==
+  LET D == {i \in 1..Len(p) : \E j \in 1..(i - 1) : p[j] = p[i]}
+  IN IF D = {} THEN 0 ELSE CHOOSE i \in D : \A j \in D : i <= j
+
 Bad(r) ==
+  IF r.mode = "distinct" THEN (IF FirstDup(r.a) > 0 THEN <<r.id, r.clause, FirstDup(r.a)>> ELSE <<>>) ELSE
   LET d == FirstDiff(r.a, r.b) IN
     IF d > 0 THEN <<r.id, r.clause, d>>
     ELSE IF r.mode = "equal" /\ Len(r.a) # Len(r.b) THEN <<r.id, r.clause, Min2(Len(r.a), Len(r.b)) + 1>>
